@@ -325,6 +325,8 @@ impl Range {
     }
 
     pub fn _parse_multipart_body(cursor: &mut Cursor<&[u8]>, mut content_range_list: Vec<ContentRange>) -> Result<Vec<ContentRange>, String> {
+      // one iteration per line or part (a loop, so that the number of lines is not limited by the stack size)
+      loop {
 
         let mut buffer = Range::_parse_line_as_bytes(cursor);
         let new_line_char_found = buffer.len() != 0;
@@ -400,7 +402,11 @@ impl Range {
             let separator = [SYMBOL.hyphen, SYMBOL.hyphen, Range::STRING_SEPARATOR].join("");
             while !buf.starts_with(separator.as_bytes()) {
                 buf = vec![];
-                cursor.read_until(b'\n', &mut buf).unwrap();
+                let bytes_offset = cursor.read_until(b'\n', &mut buf).unwrap();
+                if bytes_offset == 0 {
+                    // end of data, there is no closing separator
+                    break;
+                }
                 let separator = [SYMBOL.hyphen, SYMBOL.hyphen, Range::STRING_SEPARATOR].join("");
                 if !buf.starts_with(separator.as_bytes()) {
                     body = [body, buf.to_vec()].concat();
@@ -417,14 +423,7 @@ impl Range {
             content_range_list.push(content_range);
         }
 
-        let boxed_result = Range::_parse_multipart_body(cursor, content_range_list);
-        return if boxed_result.is_ok() {
-            Ok(boxed_result.unwrap())
-        } else {
-            let error = boxed_result.err().unwrap();
-            Err(error)
-        }
-
+      }
     }
 
     pub fn _parse_raw_content_range_header_value(unparsed_header_value: &str)-> Result<(i64, i64, i64), String> {
@@ -513,7 +512,7 @@ impl Range {
 
     pub fn _convert_bytes_array_to_string(buffer: Vec<u8>) -> String {
         let buffer_as_u8_array: &[u8] = &buffer;
-        String::from_utf8(Vec::from(buffer_as_u8_array)).unwrap()
+        String::from_utf8_lossy(buffer_as_u8_array).to_string()
     }
 
     pub fn get_content_range(body: Vec<u8>, mime_type: String) -> ContentRange {
@@ -686,7 +685,10 @@ impl Range {
             let separator = [SYMBOL.hyphen, SYMBOL.hyphen, Range::STRING_SEPARATOR].join("");
             while !buf.starts_with(separator.as_bytes()) {
                 buf = vec![];
-                cursor.read_until(b'\n', &mut buf).unwrap();
+                let bytes_offset = cursor.read_until(b'\n', &mut buf).unwrap();
+                if bytes_offset == 0 {
+                    return Err(Range::_ERROR_UNABLE_TO_PARSE_CONTENT_RANGE.to_string());
+                }
                 let separator = [SYMBOL.hyphen, SYMBOL.hyphen, Range::STRING_SEPARATOR].join("");
                 if !buf.starts_with(separator.as_bytes()) {
                     body = [body, buf.to_vec()].concat();
